@@ -198,8 +198,8 @@ func decorateTokens(s Src, toks []string) string {
 				// no gap
 			} else {
 				g := pickOne(s, gapChoices)
-				if g == "/**/" && !tightOK(toks[i-1], t) {
-					// a comment separates tokens just like whitespace
+				if toks[i-1] == "/" && strings.HasPrefix(g, "/") {
+					g = " " + g // "/" followed by "/*" or "//" would start a comment
 				}
 				sb.WriteString(g)
 			}
@@ -599,6 +599,11 @@ func (g *progGen) genCrit(d int) *PNode {
 
 // genProgram draws a whole program of a random type.
 func genProgram(s Src, depth, illPct int) *PNode {
+	return genProgramOf(s, pickOne(s, progTypes), depth, illPct)
+}
+
+// genProgramOf draws a program of the given root type.
+func genProgramOf(s Src, typ string, depth, illPct int) *PNode {
 	g := &progGen{s: s, illPct: illPct, budget: 40}
-	return g.gen(pickOne(s, progTypes), depth)
+	return g.gen(typ, depth)
 }
